@@ -49,7 +49,7 @@ impl MT900 {
         // Parse mandatory fields in order matching to_mt_string
         let field_20 = parser.parse_field::<Field20>("20")?;
         let field_21 = parser.parse_field::<Field21NoOption>("21")?;
-        let field_25 = parser.parse_field::<Field25AccountIdentification>("25")?;
+        let field_25 = parser.parse_variant_field::<Field25AccountIdentification>("25")?;
 
         // Parse optional Field 13D before Field 32A
         let field_13d = parser.parse_optional_field::<Field13D>("13D")?;
